@@ -38,6 +38,7 @@ struct VfQuantity {
   const char* (*unit_abbrev)(int unit, unsigned long* len);
   const char* (*print_number)(VfLD x, unsigned long* len);           // PhQ::Print<T>(x)
   VfLD (*convert_scalar)(VfLD x, int from, int to);                  // PhQ::Convert on a plain number of this unit type
+  int (*parse_number)(const char* text, unsigned long len, VfLD* out); // PhQ::ParseNumber<T>: 1 if it has a value
 };
 
 #define VF_DECL_QTY(N, C) extern "C" int vf_qty_count_##N##_##C(); extern "C" const VfQuantity* vf_qty_##N##_##C(int i);
